@@ -14,4 +14,22 @@ CHECKS["C20"] = {
     "text": "All sequences of VTKWriter calls (17-action alphabet: nodal/cell field adds of every field type and several data types, add_sphere, add_contact_edges, write) up to depth 4 (quick) / 5 (thorough) on 6-8 meshes (orders 1-4 and node-renumbered order 2/3 meshes), de-duplicated on a canonical state; every written file is parsed by an independent strict legacy-VTK parser and compared with a model of what was supplied (counts, index ranges, one record per entity, geometric cell identity, exact value round trip, byte-identical consecutive writes). Reaches combinations and call orders (spheres + rewrite, cell data + contact edges, renumbered high-order meshes) that the 6 existing tests never exercise; found and fixed four defects.",
     "note": "parser and model are harness python; straight-sided small meshes; depth bound; canon merges histories with equal model state, capped write count and equal model state at last write",
 }
+CHECKS["C01"] = {
+    "engine": "E-DEV",
+    "technique": "deviation-bounded exhaustive enumeration of solver configurations x problem product, trajectory monitor on the real solver",
+    "text": "Every (objective family, spectrum, eigenbasis, start) problem x every solver configuration with at most 2 (quick) / 3 (thorough) non-default axes out of 12 (radii, thresholds, tolerances, iteration caps forcing each exit, inner product, incremental mode, preconditioner quality incl. forced factorisation failures, entry point with/without warm start) is run to completion on the real trust_region_minimize / nonlinear_equation_solve; every reported iterate is checked: exact descent in the solver's own evaluation, return = last iterate, finiteness, honest flag under the requested parameters (independent numpy gradient), unique minimiser on SPD defaults. About 25k runs / 200k trust-region iterations in quick. The 185-test baseline never imports this solver (sksparse missing).",
+    "note": SHIM + "finite objective alphabet (6 quadratic+quartic spectra x 2 bases, Rosenbrock, barrier, crafted cosine); deviation bound k; 30 s horizon per run; open finding D12 (convergence test on the unaccepted trial point)",
+}
+CHECKS["C17"] = {
+    "engine": "E-PROD",
+    "technique": "exhaustive product of function family x bracket kind x guess x tolerance x budget x execution mode on the real root finder",
+    "text": "7 function families x instances x both orientations x 10-13 bracket kinds (sign change either way, end-point roots, no sign change, wide/narrow, wrong-slope) x 6-9 initial guesses x tolerance settings x iteration budgets x 5 execution modes (jit, vmap, grad, jacfwd, vmap-grad): result in bracket, tolerance met (sign change within the tolerance window), end-point roots returned exactly, NaN without sign change, derivative = implicit-function-theorem closed form. 37k executions quick / 500k thorough. Found and fixed the 0/0 Newton step at an exact multiple root.",
+    "note": "closed-form reference families in numpy; 'must converge' only asserted when the iteration budget is at least twice the pure-bisection count; both tolerances zero not admissible",
+}
+CHECKS["C18"] = {
+    "engine": "E-PROD",
+    "technique": "exhaustive product with ulp-neighbourhoods around every branch switch, exact rational reference",
+    "text": "min/max/abs/zmax/smooth_linear/smoothstep/friction over widths x bases x offsets with +-k ulp nudges around each switch, friction slip radius x directions, all lattice midpoint triples for convexity, in eager, jit and vmap modes; bounds, tightness, symmetry, equality outside the band, C1 jumps across every switch checked against exact rational arithmetic. 56k cases quick / 1.2M thorough. Found and fixed catastrophic cancellation in the in-band blend.",
+    "note": "reference in python fractions; denormal arguments excluded (XLA flushes them); widths below the library's 1e-14 floor judged against the floor",
+}
 NOT_APPLICABLE_REASON = {}
